@@ -1,7 +1,8 @@
 // c16: dispatch and construction are type-safe.
 //
-// G  generated dispatch tables (builder operation sequences incl. ill-formed ones, local aliases, blocks)
-//    and argument lists; px.New / px.Call("new") / CoerceTo on every core type x argument lists.
+// G  generated dispatch tables (builder operation sequences incl. ill-formed ones, local aliases with varying
+//    definitions, blocks incl. block types that accept undef without OptionalBlock) and argument lists;
+//    histories of 2-4 functions in one context some of which fail to resolve; px.New / px.Call("new") / CoerceTo on every core type x argument lists.
 // D  the property evaluated directly on the implementation: the body that ran is the one of the first
 //    dispatch whose declaration the call satisfies (declarative matching, px.IsInstance per parameter),
 //    every body re-checks its own declaration, no match => reported argument error; the result of new is
@@ -60,6 +61,7 @@ func main() {
 			return
 		}
 		runDispatch(cfg, res, e, rng)
+		runHistories(cfg, res, e, rng)
 		runNewFamily(cfg, res, e, rng)
 		runInstFamily(cfg, res, e, rng)
 	})
@@ -73,6 +75,11 @@ var corrImports = []string{"Model.Base", "Model.Dispatch", "Corr.CorrC16"}
 func dispatchFile(e *env) *lib.CasesFile {
 	return &lib.CasesFile{Imports: corrImports, Typ: "fncase", Prelude: e.btabGallina(),
 		Obligations: map[string]string{"dispatch_model": "fn_mismatches btab cases"}}
+}
+
+func historyFile(e *env) *lib.CasesFile {
+	return &lib.CasesFile{Imports: corrImports, Typ: "histcase", Prelude: e.btabGallina(),
+		Obligations: map[string]string{"history_model": "hist_mismatches btab cases"}}
 }
 
 func newFile() *lib.CasesFile {
@@ -232,6 +239,54 @@ func runDispatch(cfg *lib.Config, res *lib.Result, e *env, rng *lib.Rng) {
 	}
 }
 
+// ---- histories: several functions in one context, some of which fail to resolve -----------------------------------
+
+func runHistories(cfg *lib.Config, res *lib.Result, e *env, rng *lib.Rng) {
+	nRandom, nCalls, nCoq := 400, 10, 250
+	if cfg.Thorough() {
+		nRandom, nCalls, nCoq = 8000, 16, 2500
+	}
+	cf := historyFile(e)
+	one := func(h *History, family string, toCoq bool) {
+		touch(h)
+		before := len(res.Violations)
+		runs := e.checkHistory(res, h)
+		failed := len(res.Violations) > before
+		res.Count("history." + family)
+		res.Count(fmt.Sprintf("history.length.%d", len(h.Fns)))
+		failedBefore := false
+		for i, fc := range h.Fns {
+			run := runs[i]
+			res.Count("history.build." + run.obs.Build)
+			if run.obs.Build != "ok" {
+				res.Evaluations++
+				failedBefore = true
+				continue
+			}
+			for k, call := range fc.Calls {
+				res.Evaluations++
+				res.Count("history.call." + run.obs.Calls[k].Class)
+				if failedBefore {
+					res.Count("history.call-after-failed-resolve")
+				}
+				if i > 0 && len(fc.Aliases) > 0 {
+					res.Nontrivial(h.text() + " | " + fmt.Sprint(i) + " " + call.text())
+				}
+			}
+		}
+		if toCoq || failed {
+			cf.Add(h.gallina(runs), h)
+		}
+	}
+	for _, h := range historyCorpus() {
+		one(h, "corpus", true)
+	}
+	for i := 0; i < nRandom; i++ {
+		one(randomHistory(e, rng.Fork(), nCalls), "random", i < nCoq)
+	}
+	res.CorrFiles = append(res.CorrFiles, cf.WriteTo(cfg.Out, "cases_history"))
+}
+
 // ---- new / coerce family ---------------------------------------------------------------------------------------
 
 func runNewFamily(cfg *lib.Config, res *lib.Result, e *env, rng *lib.Rng) {
@@ -374,7 +429,7 @@ func runInstFamily(cfg *lib.Config, res *lib.Result, e *env, rng *lib.Rng) {
 // ---- replay -----------------------------------------------------------------------------------------------------
 
 func replay(cfg *lib.Config, res *lib.Result, e *env) {
-	df, nf, inf := dispatchFile(e), newFile(), instFile()
+	df, nf, inf, hf := dispatchFile(e), newFile(), instFile(), historyFile(e)
 	for _, in := range lib.ReplayInputs(cfg.Replay) {
 		var k struct {
 			Kind string `json:"kind"`
@@ -404,6 +459,28 @@ func replay(cfg *lib.Config, res *lib.Result, e *env) {
 				res.Evaluations++
 			}
 			df.Add(fc.gallina(run.obs), in)
+		case "history":
+			var h History
+			lib.Remarshal(in, &h)
+			fmt.Println("history in one context:")
+			runs := e.checkHistory(res, &h)
+			for i, fc := range h.Fns {
+				run := runs[i]
+				fmt.Printf("  function %d: %s\n    builder/Resolve: %s %s\n", i, fc.text(), run.obs.Build, run.obs.Msg)
+				if run.obs.Build != "ok" {
+					res.Evaluations++
+					continue
+				}
+				for k, call := range fc.Calls {
+					res.Evaluations++
+					fmt.Printf("    call %s\n       implementation: %s\n       first dispatch whose declaration is satisfied: %d\n",
+						call.text(), run.obs.Calls[k], e.expected(run, call))
+					if run.bodyViol[k] != "" {
+						fmt.Println("       " + run.bodyViol[k])
+					}
+				}
+			}
+			hf.Add(h.gallina(runs), in)
 		case "new":
 			var nc NewCase
 			lib.Remarshal(in, &nc)
@@ -433,5 +510,5 @@ func replay(cfg *lib.Config, res *lib.Result, e *env) {
 		fmt.Println("the implementation satisfies the property on this input")
 	}
 	res.CorrFiles = append(res.CorrFiles, df.WriteTo(cfg.Out, "cases_dispatch_exhaustive"), nf.WriteTo(cfg.Out, "cases_new"),
-		inf.WriteTo(cfg.Out, "cases_inst"))
+		inf.WriteTo(cfg.Out, "cases_inst"), hf.WriteTo(cfg.Out, "cases_history"))
 }
